@@ -24,6 +24,7 @@ class RecordingSource:
         if chunks is not None:
             self.chunks = chunks
         self.requests = []
+        self.array_calls = []
         self.bad = []
         self._lock = threading.Lock()
 
@@ -48,9 +49,16 @@ class RecordingSource:
                 self.bad.append(idx)
         return self._data[idx]
 
+    def __array__(self, dtype=None, copy=None):
+        # a whole-source read through the NumPy conversion protocol (what np.asarray(source) does)
+        import numpy as np
+        with self._lock:
+            self.array_calls.append(("__array__", self.shape))
+        return np.asarray(self._data, dtype=dtype)
+
     def nonempty_requests(self):
         import numpy as np
-        out = []
+        out = [c for c in self.array_calls if self._data.size > 0]
         for idx in self.requests:
             sub = self._data[idx]
             if np.size(sub) > 0:
@@ -296,4 +304,39 @@ def rewrite_targets(tier, rng):
         for sname, mk in srcs2(c):
             for oname, (f, g) in ops2.items():
                 out.append((f"2d/{sname}/{c}/{oname}", (lambda mk=mk, f=f, g=g: (f(mk()), g(d2), {}))))
+    # rank 3: every axis permutation (incl. the two 3-cycles, which are not their own inverse) under takes, slices,
+    # rechunks and reductions -- the pushdowns through Transpose map axes through the permutation
+    import itertools
+    d3 = np.arange(24.0).reshape(2, 3, 4)
+    d3c = np.arange(27.0).reshape(3, 3, 3)
+    lay3 = [((1, 1), (3,), (2, 2)), ((2,), (1, 2), (1, 3))]
+    lay3c = [((1, 2), (3,), (2, 1))]
+    ops3 = {}
+    for perm in itertools.permutations(range(3)):
+        if tier == "quick" and perm in ((0, 1, 2), (0, 2, 1)):
+            continue
+        for ax in range(3):
+            ops3[f"transpose{perm}.take([1,0],axis={ax})"] = (
+                (lambda x, perm=perm, ax=ax: da.take(x.transpose(perm), [1, 0], axis=ax)),
+                (lambda a, perm=perm, ax=ax: np.take(a.transpose(perm), [1, 0], axis=ax)))
+        ops3[f"transpose{perm}[::-1, 1:, :2]"] = ((lambda x, perm=perm: x.transpose(perm)[::-1, 1:, :2]),
+                                                  (lambda a, perm=perm: a.transpose(perm)[::-1, 1:, :2]))
+        ops3[f"transpose{perm}[1]"] = ((lambda x, perm=perm: x.transpose(perm)[1]), (lambda a, perm=perm: a.transpose(perm)[1]))
+        ops3[f"transpose{perm}.rechunk(1,2,2)"] = ((lambda x, perm=perm: x.transpose(perm).rechunk((1, 2, 2))),
+                                                   (lambda a, perm=perm: a.transpose(perm)))
+        ops3[f"transpose{perm}.sum(0)[1:]"] = ((lambda x, perm=perm: x.transpose(perm).sum(axis=0)[1:]),
+                                               (lambda a, perm=perm: a.transpose(perm).sum(axis=0)[1:]))
+        ops3[f"(transpose{perm}+1).transpose{perm}"] = ((lambda x, perm=perm: (x.transpose(perm) + 1).transpose(perm)),
+                                                        (lambda a, perm=perm: (a.transpose(perm) + 1).transpose(perm)))
+    ops3c = {}
+    for perm in ((1, 2, 0), (2, 0, 1), (2, 1, 0)):
+        for ax in range(3):
+            ops3c[f"cubic.transpose{perm}[[2,0,1]] on axis {ax}"] = (
+                (lambda x, perm=perm, ax=ax: da.take(x.transpose(perm), [2, 0, 1], axis=ax)),
+                (lambda a, perm=perm, ax=ax: np.take(a.transpose(perm), [2, 0, 1], axis=ax)))
+    for data, lays, ops in ((d3, lay3, ops3), (d3c, lay3c, ops3c)):
+        for c in lays:
+            mk = (lambda data=data, c=c: da.from_array(data, chunks=c))
+            for oname, (f, g) in ops.items():
+                out.append((f"3d/np/{c}/{oname}", (lambda mk=mk, f=f, g=g, data=data: (f(mk()), g(data), {}))))
     return out
